@@ -43,11 +43,43 @@ func evaluate(sc *Scenario, out *RunResult, prog Program) {
 		life int
 	}
 	pendq := map[string][]pendEntry{}
+	cbGroup := map[string]string{}
+	deliveredBy := map[string][]string{} // deliverer/group -> request callbacks in delivery order
+	defer func() {
+		for k, cbs := range deliveredBy {
+			g := k[strings.IndexByte(k, '/')+1:]
+			pos := map[string]int{}
+			for i, cb := range startOrder[g] {
+				if _, ok := pos[cb]; !ok {
+					pos[cb] = i
+				}
+			}
+			last, lastCb := -1, ""
+			for _, cb := range cbs {
+				p, ok := pos[cb]
+				if !ok {
+					continue
+				}
+				if p < last {
+					sc.violate("C02", "order", fmt.Sprintf("group %q: request %s was delivered after request %s (same connection, one after the other) but its callback started before", g, cb, lastCb), map[string]string{"group": g, "source": "delivery"})
+					break
+				}
+				last, lastCb = p, cb
+			}
+		}
+	}()
 	for _, e := range evs {
 		switch e.Point {
 		case "sub.call":
 			lastSub[e.G] = argS(e, 0)
 			lastKind[e.G] = argS(e, 2)
+			cbGroup[argS(e, 0)] = argS(e, 1)
+		case "delivered":
+			// requests one goroutine delivered one after the other are in that order on the connection
+			if g := cbGroup[argS(e, 0)]; g != "" {
+				k := fmt.Sprint(e.G) + "/" + g
+				deliveredBy[k] = append(deliveredBy[k], argS(e, 0))
+			}
 		case "hr.recv":
 			reply := argS(e, 1)
 			lastSub[e.G] = strings.TrimPrefix(reply, "inbox.")
